@@ -1,10 +1,8 @@
 (* Props/C15.v — property theorems only.  Debug attributes are correct and otherwise neutral.
-   PARTIAL: the neutrality statement
-     debug_neutral : Fresh names f -> (run_mode cfg_dbg .. = Ok g -> run_mode cfg0 .. = Ok (erase names g)) /\ (is_err .. <-> is_err ..)
-   is not proved yet (it is a two-run simulation); it is explored by the direct stream, which erases the
-   three attributes on the implementation's graphs and compares with the run without them, in both
-   modes.  Proved here: what a `node` / `edge` statement records. *)
-From TSG Require Import Model.Strict Model.Lazy Proofs.DebugAttrs Proofs.Containers.
+   Neutrality (debug_neutral_strict) is proved for the strict interpreter as a two-run simulation; for
+   the lazy interpreter it is PARTIAL: explored by the direct stream, which erases the three attributes on
+   the implementation's graphs and compares with the run without them, in both modes. *)
+From TSG Require Import Model.Strict Model.Lazy Model.Stdlib Proofs.DebugAttrs Proofs.Containers Proofs.DebugSim.
 
 (* a node created by a `node` statement carries the variable's text, the 1-based line and column of the
    variable, and the syntax node matched by the stanza — and nothing else *)
@@ -36,6 +34,47 @@ Proof. exact ledge_add_attrs. Qed.
 (* without configuration nothing is recorded *)
 Theorem no_debug_config_no_attrs : forall tgt v s p, opt_attr tgt None v s p = Ok (tt, s, p).
 Proof. exact no_debug_no_attrs. Qed.
+
+(* NEUTRALITY (strict mode): whatever subset of the three debug attributes is configured (pairwise different
+   names that no attribute statement or shorthand of the file uses), the run with them and the run
+   without them succeed or fail together — same error, same panic, same polls — and erasing the configured
+   names from the debug run's graph gives exactly the graph of the plain run: same nodes, same edges, same
+   other attributes with the same values. *)
+Theorem debug_neutral_strict : forall (rx : Type) t fl cfg supplied budget (regexes : list rx) find call fuel matches g0,
+  cfg_distinct cfg -> call_erasable (is_dbg_of cfg) call -> file_fresh cfg fl ->
+  match run_strict t fl cfg supplied budget regexes find call fuel matches g0 with
+  | Ok (s, p) => exists s0, run_strict t fl config0 supplied budget regexes find call fuel matches (erase_graph (is_dbg_of cfg) g0) = Ok (s0, p) /\
+                            s_graph s0 = erase_graph (is_dbg_of cfg) (s_graph s)
+  | Err e => run_strict t fl config0 supplied budget regexes find call fuel matches (erase_graph (is_dbg_of cfg) g0) = Err e
+  | Panic x => run_strict t fl config0 supplied budget regexes find call fuel matches (erase_graph (is_dbg_of cfg) g0) = Panic x
+  | OutOfFuel => run_strict t fl config0 supplied budget regexes find call fuel matches (erase_graph (is_dbg_of cfg) g0) = OutOfFuel
+  end.
+Proof. intros rx t fl cfg supplied budget regexes find call fuel matches g0. exact (debug_neutral_strict_lemma t fl cfg supplied budget regexes find call fuel matches g0). Qed.
+
+(* the hypothesis on the function library holds of the standard library: no function reads attributes *)
+Theorem stdlib_ignores_attributes : forall is_dbg rx t, call_erasable is_dbg (stdlib_call rx t).
+Proof. exact stdlib_erasable. Qed.
+
+(* the premises are satisfiable by a program that creates nodes, an edge and an attribute, and on it the
+   debug run really decorates the graph *)
+Example c15_neutral_nonvacuous :
+  let x := [120] in let y := [121] in let k := [107] in
+  let cfg := {| c_loc_attr := Some [108]; c_var_attr := Some [118]; c_match_attr := Some [109] |} in
+  let st := {| st_stmts := [SNode (VarU x (1, 2)) x (1, 0); SNode (VarU y (2, 2)) y (2, 0);
+                            SEdge (EUnscoped x (3, 0)) (EUnscoped y (3, 0)) (3, 0);
+                            SAttrNode (EUnscoped x (4, 0)) [Attr k (EInt 7)] (4, 0)];
+               st_full_stanza_idx := 0; st_full_file_idx := 0; st_start := (0, 0) |} in
+  let fl := {| f_globals := []; f_inherited := []; f_shorthands := []; f_stanzas := [st] |} in
+  let t := {| t_src := []; t_nodes := [] |} in
+  cfg_distinct cfg /\ file_fresh cfg fl /\
+  exists s p, run_strict t fl cfg [[]] None (@nil unit) (fun _ _ => None) (stdlib_call (fun _ _ _ => None) t) 50 [[[(0, [0])]]] [] = Ok (s, p) /\
+              length (s_graph s) = 2%nat /\ erase_graph (is_dbg_of cfg) (s_graph s) <> s_graph s.
+Proof.
+  cbv zeta. split; [|split].
+  - repeat split; intros a b Ha Hb; inversion Ha; inversion Hb; subst; discriminate.
+  - split; [|intros sh []]. repeat constructor.
+  - eexists. eexists. split; [vm_compute; reflexivity|]. split; [reflexivity|]. vm_compute. discriminate.
+Qed.
 
 Example c15_nonvacuous : loc_text (4, 10) = [108;105;110;101;32;53;32;99;111;108;117;109;110;32;49;49].
 Proof. vm_compute. reflexivity. Qed.
